@@ -134,7 +134,10 @@ def _loop_info(loop: ast.For) -> tuple[set[str], bool]:
     """classes skipped by `if isinstance(node, X) ...: continue`, and whether the body calls node.pc_after(previous_pc)"""
     skipped: set[str] = set()
     for st in loop.body:
-        if isinstance(st, ast.If) and any(isinstance(b, ast.Continue) for b in st.body):
+        guard = isinstance(st, ast.If) and any(isinstance(b, ast.Continue) for b in st.body)
+        # `if not isinstance(node, X): <the pass>` as the whole loop body skips X just like `if isinstance(node, X): continue`
+        wrapped = isinstance(st, ast.If) and not st.orelse and len(loop.body) == 1 and isinstance(st.test, ast.UnaryOp) and isinstance(st.test.op, ast.Not)
+        if guard or wrapped:
             for c in calls_in(st.test, "isinstance"):
                 if len(c.args) == 2:
                     second = c.args[1]
@@ -161,7 +164,7 @@ def r3_traversal_agreement(ctx: Ctx) -> None:
             raise AnalysisError(f"resolve_labels: pass {i} does not call pc_after")
         # threaded address: previous_pc = node.pc_after(previous_pc)
         threaded = any(isinstance(s, ast.Assign) and isinstance(s.value, ast.Call) and (call_name(s.value) or "").endswith(".pc_after")
-                       and [unparse(a) for a in s.value.args] == [unparse(s.targets[0])] for s in lp.body)
+                       and [unparse(a) for a in s.value.args] == [unparse(s.targets[0])] for s in walk_no_nested(lp))
         ctx.check(threaded, f"resolve_labels:pass{i}:threads-address", "each node receives the address returned by the previous node")
         if "LabelNode" not in skipped:
             label_passes += 1
